@@ -125,6 +125,7 @@ func Replay(path string) (int, error) {
 				}
 			}
 			Seed, Ops []lx.Op
+			Carrier   string
 		}
 		if err := json.Unmarshal(rf.Replay, &rp); err != nil {
 			return 2, err
@@ -153,7 +154,7 @@ func Replay(path string) (int, error) {
 				ref.commit(op)
 			}
 			return ref
-		}, c29Case{Group: rp.Group, Mode: rp.Mode, Schemas: schemas, Seed: rp.Seed, Ops: rp.Ops})
+		}, c29Case{Group: rp.Group, Mode: rp.Mode, Schemas: schemas, Seed: rp.Seed, Ops: rp.Ops, Carrier: rp.Carrier})
 		return r.Finish(ev.Coverage{"evaluations": 1, "distinct_nontrivial": 1, "rule": "replay of " + path, "samples": []any{}, "exhaustive": false, "outcomes": c.outcomes.snapshot()}, nil), nil
 	case "C30":
 		var rp struct {
